@@ -20,8 +20,10 @@ D_GEN = 9          # what the scripted urandom makes generate_private_key draw
 
 
 def two_curves():
+    """c1: 2-byte field; c2: 3-byte field (so that secrets, keys and scalars
+    have different byte lengths on the two curves)"""
     a = catalog.first("h1", "p2byte", "n>p")
-    b = catalog.first("h1", "p2byte", "n<p")
+    b = catalog.first("h1", "pbits17")
     return a, b
 
 
@@ -704,7 +706,7 @@ def main(ctx):
     w = World.get()
     rep = common.Report()
     # (1) merged BFS over canonical states (as a shard, see shard_bfs)
-    jobs = [(shard_bfs, "bfs-canonical-states", ctx.pick(6, 8))]
+    jobs = [(shard_bfs, "bfs-canonical-states", ctx.pick(10, 12))]
     # (2) unmerged sequences
     evs = events()
     length = ctx.pick(4, 5)
